@@ -279,6 +279,10 @@ SPECIAL = [
     # self-documenting f-string fields whose expression has gaps owned by operator nodes (two-word operators, unary, ternary)
     "x = f'{a is not b = }'\n", "x = f'{a not in b=}'\n", "x = f'{é is not ü = :>5} {c not in d = !r}'\n", "x = f'{a if b else c = }'\n",
     "x = f'{not a = }' f'{- a=}'\n", "x = f'''{a + b = !r\n}'''\n", "x = f'''{a + b = !s\n:>5}'''\n", "x = f'''é{\n a + b\n = !a\n}'''\n", "é = [a,\n b]; ü = f('üüü',\n a)\n", "x = f'{a and b or c = }'\n", "x = f'{a < b <= c = }'\n", "x = f'{f(a, k = 1) = }'\n", "x = f'{a [ b : c ] = }'\n",
+    # debug fields whose `=` is followed by 0..3 comment / continuation lines before the closing brace, conversion or format spec
+    "x = f'''{a + b =  # first\n    # second\n}'''\n", "x = f'''{a + b =  # first\n    # second\n  # third\n}'''\n", "x = f'''{a + b =\n\n}'''\n",
+    "x = f'''{é + ü =  # é\n    # ü\n !r}'''\n", "x = f'''{a + b =  # first\n    # second\n :>5}'''\n", "x = f'''é{a + b = \\\n  \\\n}ü'''\n",
+    "x = f'''{a + b =  # only\n}''' f'''{c - d = \\\n}'''\n", "x = f'''{a +\n b  # c\n =  # first\n    # second\n}'''\n",
     'class Shape(Base, metaclass=abc.ABCMeta,\n            *mixins): pass\n', 'class C(a, k=1,\n  *b, j=2,\n *c): pass\n', 'r = f(a, key=1,\n  *b, last=2,\n *c)\n',
 ]
 
